@@ -74,7 +74,7 @@ class FaultyGroup:
 
     def _count(self, what):
         self._state[1] += 1
-        self._seam.tick('h5write', what=what, n=self._state[1])
+        self._seam.tick('h5write', n=self._state[1])      # (not the kind of item: the order of items follows dict order, see snapshot())
         kind, arg = self._state[0]
         k = arg if kind == 'eio_on_write' else 1 + arg // 200      # ENOSPC after n bytes ~ after n/200 write calls
         if self._state[1] == k:
@@ -141,7 +141,9 @@ class FsSeam:
             data = src.read()
         with open(dst, 'wb') as out:
             out.write(data)
-        self.tick('crash_snapshot', target=self.rel(path), n=len(data))
+        # (the byte count is not logged: Dataset.from_df orders descriptors by iterating a set, so the bytes of a file that
+        #  holds such an object depend on PYTHONHASHSEED -- pinned to 0 by the CLI -- while the events of a run do not)
+        self.tick('crash_snapshot', target=self.rel(path), empty=len(data) == 0)
         return dst
 
     # ---------------------------------------------------------------- rebinding library-level open()/File
